@@ -803,6 +803,19 @@ def build_pair(case):
     return a, b, ma, mb, rel
 
 
+FID_DEFICIENT = 5e-3
+
+
+def fid_tol(a, b, ma, mb, D):
+    """rho/rho fidelity takes sqrt twice: an exactly-zero eigenvalue of sqrt(a) b sqrt(a) comes back as ~1e-10
+    (sqrt(a) carries an i*5e-9 part from sqrt(-1e-17)) and contributes its square root ~1e-5.  Rank-deficient
+    operator pairs are therefore compared at FID_DEFICIENT (a-priori eps**0.25 ~ 1e-4 x dimension), everything else at SQRT64."""
+    if a.ndim == 2 and b.ndim == 2:
+        deficient = any(m.get("rank") is None or m["rank"] < D for m in (ma, mb))
+        return FID_DEFICIENT if deficient else SQRT64
+    return SQRT64
+
+
 def run_fidelity(case):
     qu = Q()
     a, b, ma, mb, rel = build_pair(case)
@@ -813,21 +826,24 @@ def run_fidelity(case):
     qa, qb = to_q(a, real=case["s1"]["real"]), to_q(b, real=case["s2"]["real"])
     got = real_scalar(qu.fidelity(qa, qb, **kw), "fidelity")
     types = ("ket" if a.ndim == 1 else "rho") + "/" + ("ket" if b.ndim == 1 else "rho")
-    e = close(got, ref, SQRT64, "definition", fn="fidelity", squared=case["squared"], types=types)
+    tol = fid_tol(a, b, ma, mb, case["D"])
+    e = SQRT64 / tol * close(got, ref, tol, "definition", fn="fidelity", squared=case["squared"], types=types)
     gs = real_scalar(qu.fidelity(qb, qa, **kw), "fidelity")
-    e = max(e, close(gs, got, SQRT64, "symmetry", fn="fidelity", types=types))
-    if got < -1e-9 or got > 1 + SQRT64:
+    e = max(e, SQRT64 / tol * close(gs, got, tol, "symmetry", fn="fidelity", types=types))
+    if got < -1e-9 or got > 1 + 2 * tol:
         raise Violation("bound", fn="fidelity", got=got, types=types)
     if rel == "same":
-        e = max(e, close(got, 1.0, SQRT64, "F(r,r)=1", fn="fidelity", types=types))
+        e = max(e, SQRT64 / tol * close(got, 1.0, tol, "F(r,r)=1", fn="fidelity", types=types))
     if case["useed"] is not None:
         W = runitary(np.random.default_rng(case["useed"]), case["D"])
         g2 = real_scalar(qu.fidelity(to_q(apply_unitary(a, W)), to_q(apply_unitary(b, W)), **kw), "fidelity")
-        e = max(e, close(g2, ref, SQRT64, "invariance", fn="fidelity", types=types))
+        e = max(e, SQRT64 / tol * close(g2, ref, tol, "invariance", fn="fidelity", types=types))
     if a.ndim == 1:
-        # ket == projector
+        # ket == projector (the projector goes through the two nested matrix square roots)
         g3 = real_scalar(qu.fidelity(to_q(o_dop(a)), qb, **kw), "fidelity")
-        e = max(e, close(g3, got, SQRT64, "ket==projector", fn="fidelity", types=types))
+        t3 = FID_DEFICIENT if b.ndim == 2 else SQRT64
+        e = max(e, SQRT64 / t3 * close(g3, got, t3, "ket==projector", fn="fidelity", types=types))
+    # (errors are reported in units of the class actually used, rescaled to SQRT64)
     return {"nt": rel != "same" and 1e-3 < F < 1 - 1e-3,
             "cls": ["types=" + types, "squared=%s" % case["squared"], "rel=" + rel], "err": e}
 
@@ -873,7 +889,8 @@ def run_trace_distance(case):
         e = max(e, close(g2, ref, 1e-6 if ketket else 1e-8, "invariance", fn="trace_distance", types=types))
     # Fuchs - van de Graaf with the (unsquared) fidelity
     F = real_scalar(qu.fidelity(qa, qb), "fidelity")
-    if got < 1 - F - SQRT64 or got > math.sqrt(max(0.0, 1 - F * F)) + 10 * SQRT64 + (2e-3 if F > 1 - 1e-6 else 0):
+    dF = fid_tol(a, b, ma, mb, case["D"]) / 10
+    if 1 - F - got > 2 * dF + 1e-7 or got * got + F * F > 1 + 3 * dF + 1e-7:
         raise Violation("fuchs-van-de-graaf", fn="trace_distance", T=got, F=F, types=types)
     return {"nt": rel != "same" and ref > 1e-3, "cls": ["types=" + types, "isherm=%s" % case["isherm"], "rel=" + rel], "err": e}
 
@@ -1254,7 +1271,13 @@ def run_measure(case):
         res, after = qu.measure(to_q(x), arg, eigenvalue=lam)
     else:
         np.random.seed(case["mseed"] % (2 ** 32))
-        res, after = qu.measure(to_q(x), arg)
+        try:
+            res, after = qu.measure(to_q(x), arg)
+        except ValueError as ex:
+            if "not non-negative" in str(ex):
+                # Born probabilities of a valid (psd up to rounding) state came out as -1e-18
+                raise Violation("born-probability-negative", fn="measure", pure=x.ndim == 1, restricted=k < D)
+            raise
     res = real_scalar(res, "measure")
     near = [l for l in probs if abs(l - res) < 1e-9]
     if not near:
@@ -1319,11 +1342,14 @@ def run_counts(case):
     if tot != case["C"] or any(int(v) <= 0 for v in res.values()):
         raise Violation("total", fn="simulate_counts", got=tot, want=case["C"], phys_dim=pd)
     for key in res:
-        if not isinstance(key, str) or len(key) != n or any(ch not in "0123456789"[:pd] for ch in key):
-            raise Violation("key-format", fn="simulate_counts", key=str(key), n=n, phys_dim=pd)
-        ix = int(key, pd)
-        if born[ix] <= 1e-30:
-            raise Violation("outcome-outside-support", fn="simulate_counts", key=key, phys_dim=pd)
+        if not isinstance(key, str):
+            raise Violation("key-type", fn="simulate_counts", key=repr(key))
+        good = len(key) == n and all(ch in "0123456789"[:pd] for ch in key)
+        if not (good and born[int(key, pd)] > 1e-30):
+            if pd != 2 and set(key) <= {"0", "1"} and int(key, 2) < D and born[int(key, 2)] > 1e-30:
+                # the sampled outcome is fine but it is labelled with the binary digits of the flat index
+                raise Violation("key-format", fn="simulate_counts", key=key, n=n, phys_dim=pd)
+            raise Violation("outcome-outside-support" if good else "key-format", fn="simulate_counts", key=key, n=n, phys_dim=pd, binary=False)
     # same seed => same sample
     res2 = qu.simulate_counts(to_q(x), case["C"], **kw)
     if res2 != res:
@@ -1382,7 +1408,7 @@ def run_dephase(case):
 
 @st.composite
 def s_pauli_decomp(draw, tier):
-    n = draw(st.sampled_from([1, 2, 2, 3, 3, 4]))
+    n = draw(st.sampled_from([1, 2, 2, 2, 3, 3, 3, 3, 3, 4]))
     return {"n": n, "state": draw(s_state(2 ** n)), "herm_op": draw(st.integers(0, 4)) == 0, "oseed": draw(A.seeds)}
 
 
@@ -1468,8 +1494,19 @@ def run_correlation(case):
     if case["sparse"] is False and case["sparse_ops"]:
         qa, qb = qu.qu(Aop), qu.qu(Bop)
     p = to_q(x, real=case["state"]["real"])
+    try:
+        return _run_correlation_tail(case, qu, kw, qa, qb, p, sa, sb, ref, mag, meta, rho, dims)
+    except AttributeError as ex:
+        if "asformat" in str(ex):
+            # sparse=True with dense operators sitting on every subsystem: kron(dense, dense, stype='csr')
+            raise Violation("sparse-flag-dense-ops-crash", fn="correlation", all_sites=len(dims) == 2, sparse_ops=case["sparse_ops"])
+        raise
+
+
+def _run_correlation_tail(case, qu, kw, qa, qb, p, sa, sb, ref, mag, meta, rho, dims):
     if case["precomp"]:
-        got = qu.correlation(None, qa, qb, sa, sb, precomp_func=True, **kw)(p)
+        # p is documented as ignored, but is what the size is inferred from when dims is not given
+        got = qu.correlation(p if "dims" not in kw else None, qa, qb, sa, sb, precomp_func=True, **kw)(p)
     else:
         got = qu.correlation(p, qa, qb, sa, sb, **kw)
     e = close(got, ref, EXACT64, "definition", floor=mag, fn="correlation", reordered=sa > sb)
@@ -1510,7 +1547,7 @@ def run_pauli_corr(case):
         kw["ss"] = ss
     p = to_q(x, real=case["state"]["real"])
     if case["precomp"]:
-        f = qu.pauli_correlations(None, precomp_func=True, **kw)
+        f = qu.pauli_correlations(p, precomp_func=True, **kw)  # p only fixes the register size here
         got = f(p) if case["sum_abs"] else [g(p) for g in f]
     else:
         got = qu.pauli_correlations(p, **kw)
@@ -1649,3 +1686,326 @@ def run_qid(case):
         gp = qu.qid(to_q(rho), tuple(dims), inds, **kw)
         e = max(e, close(np.array([complex(g) for g in gp]), np.array([complex(g) for g in got]), INV64, "ket==projector", fn="qid"))
     return {"nt": n >= 2, "cls": ["kind=" + meta["kind"], "sparse_comp=%s" % case["sparse_comp"]] + (["precomp"] if case["precomp"] else []), "err": e}
+
+
+# ---------------------------------------------------------------------------
+# 24. approx_spectral shortcuts (stochastic: quimb's generator is seeded from the case)
+# ---------------------------------------------------------------------------
+
+APPROX_FNS = ("entropy_subsys_approx", "tr_sqrt_subsys_approx", "logneg_subsys_approx", "negativity_subsys_approx",
+              "entropy_subsys:thresh", "tr_sqrt_subsys:thresh", "logneg_subsys:thresh", "mutinf_subsys:thresh")
+
+
+@st.composite
+def s_approx(draw, tier):
+    fn = draw(st.sampled_from(APPROX_FNS))
+    two = fn.startswith(("logneg", "negativity", "mutinf"))
+    maxD = 72 if two else 128
+    # by construction: subsystem A of dimension >= 8 (>= 4 for the two-subsystem routes), environment >= 2
+    for _ in range(1):
+        dims = draw(s_dims(4, 6, maxD=maxD, choices=(2, 2, 3)))
+    n = len(dims)
+    perm = list(draw(st.permutations(list(range(n)))))
+    sysa, da = [], 1
+    need = 4 if two else 8
+    for i in perm:
+        if da >= need or len(sysa) >= n - (2 if two else 1):
+            break
+        sysa.append(i)
+        da *= dims[i]
+    rest = [i for i in perm if i not in sysa]
+    sysb = rest[:max(1, len(rest) - 1)] if two else []
+    return {"fn": fn, "dims": dims, "sysa": sysa, "sysb": sysb, "seed": draw(A.seeds), "qseed": draw(st.integers(0, 2 ** 31 - 1)),
+            "kind": draw(st.sampled_from(["haar", "haar", "ghz2"]))}
+
+
+def run_approx(case):
+    qu = Q()
+    from quimb.linalg import approx_spectral as aps
+
+    fn, dims, sysa, sysb = case["fn"], case["dims"], case["sysa"], case["sysb"]
+    n = len(dims)
+    x, meta = make_state({"kind": case["kind"], "seed": case["seed"], "real": False}, dims)
+    psi = to_q(x)
+    da = int(np.prod([dims[i] for i in sysa]))
+    D = int(np.prod(dims))
+    qu.seed_rand(case["qseed"])
+    name = fn.split(":")[0]
+    rel = 0.15
+    if name in ("entropy_subsys_approx", "entropy_subsys"):
+        ref = H2(o_schmidt(x, dims, sysa) ** 2)
+        if fn.endswith("thresh"):
+            got = qu.entropy_subsys(psi, tuple(dims), tuple(sysa), approx_thresh=2)
+        else:
+            got = aps.entropy_subsys_approx(psi, tuple(dims), tuple(sysa))
+    elif name in ("tr_sqrt_subsys_approx", "tr_sqrt_subsys"):
+        ref = float(np.sum(o_schmidt(x, dims, sysa)))
+        if fn.endswith("thresh"):
+            got = qu.tr_sqrt_subsys(psi, tuple(dims), tuple(sysa), approx_thresh=2)
+        else:
+            got = aps.tr_sqrt_subsys_approx(psi, tuple(dims), tuple(sysa))
+    elif name == "mutinf_subsys":
+        ref = o_mutinf(x, dims, sysa, sysb)
+        got = qu.mutinf_subsys(psi, tuple(dims), tuple(sysa), tuple(sysb), approx_thresh=2)
+        rel = 0.3  # three independent estimates
+    else:
+        dab, pa, pb, ab = sub_positions(dims, sysa, sysb)
+        rab = o_rdm(x, dims, ab)
+        rel = 0.2
+        if name == "negativity_subsys_approx":
+            ref = o_neg(rab, dab, pa)
+            got = aps.negativity_subsys_approx(psi, tuple(dims), tuple(sysa), tuple(sysb))
+        else:
+            ref = o_logneg(rab, dab, pa)
+            if fn.endswith("thresh"):
+                got = qu.logneg_subsys(psi, tuple(dims), tuple(sysa), tuple(sysb), approx_thresh=2)
+            else:
+                got = aps.logneg_subsys_approx(psi, tuple(dims), tuple(sysa), tuple(sysb))
+    got = real_scalar(got, "approx", fn=fn)
+    err = abs(got - ref) / (abs(ref) + 1)
+    if not err <= rel:
+        raise Violation("approx-outside-stochastic-tolerance", fn=fn, got=got, want=ref, err=err, rel=rel)
+    return {"nt": True, "cls": ["fn=" + fn, "kind=" + case["kind"], "da=%d" % da] + sys_classes(sysa, sysb) if sysb else ["fn=" + fn, "kind=" + case["kind"], "da=%d" % da] + sys_classes(sysa),
+            "err": err / rel * 1e-12}  # err is reported relative to the stochastic tolerance, scaled so it does not drown the exact sub-checks
+
+
+# ---------------------------------------------------------------------------
+# 25. lazy partial-trace linear operators used by the shortcut paths (exact)
+# ---------------------------------------------------------------------------
+
+@st.composite
+def s_lazy(draw, tier):
+    dims = draw(s_dims(2, 5, maxD=128))
+    n = len(dims)
+    which = draw(st.sampled_from(["ptr", "ppt"])) if n >= 2 else "ptr"
+    if which == "ptr":
+        (sysa,) = draw(s_subsets(n, 1))
+        sysb = []
+    else:
+        sysa, sysb = draw(s_subsets(n, 2))
+    return {"which": which, "dims": dims, "sysa": sysa, "sysb": sysb, "state": draw(s_state(int(np.prod(dims)), pure=True)),
+            "vseed": draw(A.seeds), "act": draw(st.sampled_from(["to_dense", "matvec", "matmat"]))}
+
+
+def run_lazy(case):
+    from quimb.linalg import approx_spectral as aps
+
+    dims, sysa, sysb = case["dims"], case["sysa"], case["sysb"]
+    x, meta = make_state(case["state"], dims)
+    psi = to_q(x)
+    if case["which"] == "ptr":
+        lo = aps.lazy_ptr_linop(psi, tuple(dims), tuple(sysa))
+        M = o_rdm(x, dims, sysa)            # row/column order = order of sysa as given (kA{i} for i in sysa)
+    else:
+        lo = aps.lazy_ptr_ppt_linop(psi, tuple(dims), tuple(sysa), tuple(sysb))
+        dab, pa, pb, ab = sub_positions(dims, sysa, sysb)
+        M = o_pt(o_rdm(x, dims, ab), dab, pa)
+    if tuple(lo.shape) != M.shape:
+        raise Violation("shape", fn="lazy_" + case["which"], got=list(lo.shape), want=list(M.shape))
+    rng = np.random.default_rng(case["vseed"])
+    d = M.shape[0]
+    act = case["act"]
+    if act == "to_dense":
+        got, want, fl = np.asarray(lo.to_dense()), M, 1.0
+    elif act == "matvec":
+        v = rng.normal(size=d) + 1j * rng.normal(size=d)
+        got, want, fl = np.asarray(lo @ v), M @ v, float(np.linalg.norm(v))
+    else:
+        V = rng.normal(size=(d, 3)) + 1j * rng.normal(size=(d, 3))
+        got, want, fl = np.asarray(lo @ V), M @ V, float(np.linalg.norm(V))
+    # the spectrum is what the shortcuts consume: it must be right whatever the basis order
+    e = 0.0
+    if act == "to_dense":
+        e = close(np.sort(np.linalg.eigvalsh(herm(got))), np.sort(np.linalg.eigvalsh(herm(M))), EXACT64, "spectrum", fn="lazy_" + case["which"])
+    e = max(e, close(got, want, EXACT64, "definition", floor=fl, fn="lazy_" + case["which"], act=act,
+                     reordered="reordered" in sys_classes(sysa, sysb)))
+    return {"nt": not meta["product"] and len(dims) >= 3, "cls": ["which=" + case["which"], "act=" + act, "kind=" + meta["kind"]] + sys_classes(sysa, sysb),
+            "err": e}
+
+
+# ---------------------------------------------------------------------------
+# 26. dense == sparse
+# ---------------------------------------------------------------------------
+
+SPARSE_FNS = ("ptr", "mutinf:ket", "entropy_subsys", "schmidt_gap", "tr_sqrt_subsys", "mutinf_subsys", "logneg_subsys", "logneg:ket",
+              "fidelity:ket-rho", "fidelity:ket-sprho", "trace_distance:sp-dense", "correlation", "pauli_decomp", "concurrence")
+
+
+@st.composite
+def s_sparse(draw, tier):
+    fn = draw(st.sampled_from(SPARSE_FNS))
+    qubits = fn in ("pauli_decomp", "concurrence")
+    dims = draw(s_dims(2, 4 if fn == "pauli_decomp" else 5, maxD=16 if fn == "pauli_decomp" else 64, choices=(2,) if qubits else CHOICES))
+    n = len(dims)
+    sysa, sysb = draw(s_subsets(n, 2))
+    ketfn = fn in ("mutinf:ket", "entropy_subsys", "schmidt_gap", "tr_sqrt_subsys", "mutinf_subsys", "logneg_subsys", "logneg:ket") or fn.startswith("fidelity")
+    pure = True if ketfn else (False if fn in ("trace_distance:sp-dense", "pauli_decomp") else draw(st.booleans()))
+    D = int(np.prod(dims))
+    return {"fn": fn, "dims": dims, "sysa": sysa, "sysb": sysb, "state": draw(s_state(D, pure=pure)), "state2": draw(s_state(D, pure=False)),
+            "oseed": draw(A.seeds), "zero_frac": draw(st.sampled_from([0.0, 0.0, 0.5])), "stype": draw(st.sampled_from(["csr", "csr", "csc", "coo", "bsr"]))}
+
+
+def run_sparse(case):
+    qu = Q()
+    fn, dims, sysa, sysb = case["fn"], case["dims"], case["sysa"], case["sysb"]
+    n = len(dims)
+    D = int(np.prod(dims))
+    x, meta = make_state(case["state"], dims)
+    if case["zero_frac"] and x.ndim == 1:
+        # genuinely sparse amplitudes
+        rng = np.random.default_rng(case["oseed"])
+        mask = rng.random(D) < case["zero_frac"]
+        if np.linalg.norm(x * ~mask) > 1e-3:
+            x = x * ~mask
+            x = x / np.linalg.norm(x)
+            meta["product"] = False
+    y, _ = make_state(case["state2"], dims)
+    xs = qu.qu(x, qtype="ket" if x.ndim == 1 else "dop", sparse=True, stype=case["stype"] if fn == "ptr" else "csr")
+    xd = to_q(x)
+    tdims = tuple(dims)
+    a, b = tuple(sysa), tuple(sysb)
+    tol = 1e-8
+    if fn == "ptr":
+        keep = sorted(sysa)
+        try:
+            got = qu.ptr(xs, tdims, keep)
+        except (TypeError, NotImplementedError) as ex:
+            if case["stype"] in ("coo", "bsr"):
+                # these formats are given a .ptr method by quimb.core, but the kernel indexes / slices them
+                raise Violation("ptr-sparse-format-crash", fn="ptr", stype=case["stype"], exc=type(ex).__name__)
+            raise
+        got = got.toarray() if hasattr(got, "toarray") else np.asarray(got)
+        e = close(got, o_rdm(x, dims, keep), EXACT64, "definition", fn="ptr:sparse", pure=meta["pure"])
+        e = max(e, close(got, np.asarray(qu.ptr(xd, tdims, keep)), EXACT64, "dense==sparse", fn="ptr"))
+        return {"nt": n >= 3 and not meta["product"], "cls": ["fn=ptr", "stype=" + case["stype"], "pure" if meta["pure"] else "mixed"] + sys_classes(keep), "err": e}
+    if fn == "mutinf:ket":
+        f = lambda p: qu.mutinf(p, tdims, a)
+        ref = 2 * H2(o_schmidt(x, dims, sysa) ** 2) if len(sysa) < n else None
+    elif fn == "entropy_subsys":
+        f = lambda p: qu.entropy_subsys(p, tdims, a)
+        ref = H2(o_schmidt(x, dims, sysa) ** 2)
+    elif fn == "schmidt_gap":
+        f = lambda p: qu.schmidt_gap(p, tdims, a)
+        pr = np.sort(o_schmidt(x, dims, sysa) ** 2)[::-1]
+        ref = float(pr[0] - (pr[1] if pr.size > 1 else 0))
+    elif fn == "tr_sqrt_subsys":
+        f = lambda p: qu.tr_sqrt_subsys(p, tdims, a)
+        ref = float(np.sum(o_schmidt(x, dims, sysa)))
+        tol = SQRT64
+    elif fn == "mutinf_subsys":
+        f = lambda p: qu.mutinf_subsys(p, tdims, a, b)
+        ref = o_mutinf(x, dims, sysa, sysb)
+    elif fn == "logneg_subsys":
+        f = lambda p: qu.logneg_subsys(p, tdims, a, b)
+        dab, pa, pb, ab = sub_positions(dims, sysa, sysb)
+        ref = o_logneg(o_rdm(x, dims, ab), dab, pa)
+        tol = SQRT64
+    elif fn == "logneg:ket":
+        f = lambda p: qu.logneg(p, tdims, a)
+        ref = o_logneg(o_dop(x), dims, sysa)
+        tol = SQRT64
+    elif fn == "fidelity:ket-rho":
+        yq = to_q(y)
+        f = lambda p: qu.fidelity(p, yq)
+        ref = o_fidelity(x, y)
+    elif fn == "fidelity:ket-sprho":
+        yq = qu.qu(y, qtype="dop", sparse=True)
+        f = lambda p: qu.fidelity(p, yq)
+        ref = o_fidelity(x, y)
+    elif fn == "trace_distance:sp-dense":
+        yq = to_q(y)
+        f = lambda p: qu.trace_distance(p, yq)
+        ref = o_tracedist(x, y)
+    elif fn == "correlation":
+        rng = np.random.default_rng(case["oseed"])
+        sa, sb = sysa[0], sysb[0]
+        Aop, Bop = rherm(rng, dims[sa]), rherm(rng, dims[sb])
+        qa, qb = qu.qu(Aop, sparse=True), qu.qu(Bop, sparse=True)
+        f = lambda p: qu.correlation(p, qa, qb, sa, sb, dims=tdims)
+        rho = o_dop(x)
+        ref = np.trace(rho @ embed(np.kron(Aop, Bop), dims, [sa, sb])) - np.trace(rho @ embed(Aop, dims, [sa])) * np.trace(rho @ embed(Bop, dims, [sb]))
+    elif fn == "concurrence":
+        sa, sb = sysa[0], sysb[0]
+        if n == 2:
+            f = lambda p: qu.concurrence(p)
+            ref = o_concurrence(o_dop(x))
+        else:
+            f = lambda p: qu.concurrence(p, tdims, sa, sb)
+            ref = o_concurrence(o_rdm(x, dims, [sa, sb]))
+        tol = SQRT64
+    elif fn == "pauli_decomp":
+        rd = qu.pauli_decomp(xd, mode="c")
+        rs = qu.pauli_decomp(xs, mode="c")
+        if sorted(rd) != sorted(rs):
+            raise Violation("names", fn="pauli_decomp:sparse")
+        e = max(close(rs[k], rd[k], EXACT64, "dense==sparse", fn="pauli_decomp") for k in rd)
+        return {"nt": n >= 2, "cls": ["fn=pauli_decomp"], "err": e}
+    else:
+        raise AssertionError(fn)
+    gd = f(xd)
+    gs = f(xs)
+    mag = max(1.0, abs(complex(gd)))
+    e = close(gs, gd, tol, "dense==sparse", floor=mag, fn=fn)
+    if ref is not None:
+        e = max(e, close(gs, ref, tol, "definition", floor=mag, fn=fn + ":sparse"))
+    return {"nt": n >= 3 and not meta["product"], "cls": ["fn=" + fn, "pure" if meta["pure"] else "mixed"] + (["sparse-amplitudes"] if case["zero_frac"] else []), "err": e}
+
+
+SUBCHECKS = [
+    SubCheck("entropy", run_entropy, s_entropy, examples=(150, 3000), shards=(1, 4),
+             rule="entropy(op | eigenvalue list | rank= | unitary conjugate) vs -sum l log2 l, 0<=S<=log2 D; nt: rank>=2"),
+    SubCheck("entropy_subsys", run_entropy_subsys, s_entropy_subsys, examples=(150, 3000), shards=(1, 4),
+             rule="entropy_subsys of pure states vs Schmidt values; S(A)=S(B); == entropy(ptr); LU/relabel invariance; nt: entangled, proper subset, n>=3"),
+    SubCheck("mutinf", run_mutinf, s_mutinf, examples=(150, 3000), shards=(1, 4),
+             rule="mutinf(sysa|rest) of kets and density operators vs S(A)+S(B)-S(AB); ket==projector; I=2S; symmetry; invariance; bounds; nt: non-product, n>=3, rank>=2"),
+    SubCheck("mutinf_subsys", run_mutinf_subsys, s_two_subsys, examples=(150, 3000), shards=(1, 4),
+             rule="mutinf_subsys(sysa, sysb) of pure states vs textbook; symmetry; == mutinf(ptr); invariance; nt: entangled, n>=3, non-contiguous or reordered choice"),
+    SubCheck("partial_transpose", run_ptranspose, s_ptranspose, examples=(150, 3000), shards=(1, 4),
+             rule="partial_transpose vs axis swap; involution; PT_A == (PT_B)^T; nt: non-product, n>=3"),
+    SubCheck("negativity_logneg", run_neg, s_neg, examples=(200, 4000), shards=(1, 4),
+             rule="logneg / negativity of a bipartition vs trace norm of the partial transpose; ket==projector; Schmidt formula; N=(2^EN-1)/2; symmetry; invariance; bounds; nt: non-product, n>=3, rank>=2"),
+    SubCheck("logneg_subsys", run_logneg_subsys, s_two_subsys, examples=(150, 3000), shards=(1, 4),
+             rule="logneg_subsys(sysa, sysb) of pure states vs ptrace+PT oracle; symmetry; == logneg(ptr); invariance; nt: entangled, n>=3, non-contiguous or reordered choice"),
+    SubCheck("concurrence", run_concurrence, s_concurrence, examples=(150, 3000), shards=(1, 4),
+             rule="concurrence of two qubits (alone or inside a 3-5 party register incl. qudit spectators, sysa>sysb) vs Wootters via svd; pure formula; ket==projector; symmetry; LU invariance; nt: C>0 or non-product n>=3"),
+    SubCheck("fidelity", run_fidelity, s_pair, examples=(200, 4000), shards=(1, 4),
+             rule="fidelity over ket/rho type pairs x squared in {default, False, True} vs ||sqrt(a) sqrt(b)||_1; symmetry; F(r,r)=1; unitary invariance; ket==projector; nt: 1e-3<F<1-1e-3, not identical"),
+    SubCheck("trace_distance", run_trace_distance, s_pair, examples=(200, 4000), shards=(1, 4),
+             rule="trace_distance over ket/rho type pairs x isherm vs half trace norm (ket/ket: squares compared); symmetry; T(r,r)=0; unitary invariance; Fuchs-van de Graaf with fidelity; nt: T>1e-3, not identical"),
+    SubCheck("schmidt_gap", run_schmidt_gap, s_entropy_subsys, examples=(150, 3000), shards=(1, 4),
+             rule="schmidt_gap vs two largest squared Schmidt values; symmetry A<->B; invariance; product -> 1; nt: entangled, n>=3"),
+    SubCheck("tr_sqrt", run_tr_sqrt, s_tr_sqrt, examples=(150, 3000), shards=(1, 4),
+             rule="tr_sqrt(op | rank=) vs sum sqrt eigenvalues; tr_sqrt_subsys vs sum of Schmidt values; nt: rank>=2 / entangled n>=3"),
+    SubCheck("owci", run_owci, s_owci, examples=(150, 3000), shards=(1, 4),
+             rule="one_way_classical_information for random projective and trine measurements on qubit B vs S(A)-sum p S(A|j); nt: non-product"),
+    SubCheck("quantum_discord", run_discord, s_discord, examples=(14, 300), shards=(2, 4), soft_budget=(60.0, 600.0),
+             rule="quantum_discord of two qubits (alone / inside 3-4 qubit registers, both orders of sysa,sysb) vs brute-force minimisation over a 181x361 grid of projective measurements + polish, tol 1e-3; nt: discord>1e-4"),
+    SubCheck("purify", run_purify, s_purify, examples=(150, 3000), shards=(1, 4),
+             rule="purify: shape d^2, norm 1, partial trace back == rho (own and quimb ptr), purifier spectrum; nt: rank>=2"),
+    SubCheck("kraus_op", run_kraus, s_kraus, examples=(200, 4000), shards=(1, 4),
+             rule="kraus_op on the whole space or on 1-2 (reordered) subsystems vs sum E rho E^dag with embed; array/list forms; check=True accepts channels and refuses invalid sets; trace preservation; nt: acts on a proper subsystem"),
+    SubCheck("projector", run_projector, s_observable, examples=(150, 3000), shards=(1, 4),
+             rule="projector(A | eigh tuple, eigenvalue) for constructed degenerate spectra vs sum |v><v|; idempotent; A P = l P; nt: degenerate target"),
+    SubCheck("measure", run_measure, s_observable, examples=(200, 4000), shards=(1, 4),
+             rule="measure with fixed eigenvalue / seeded random outcome on kets and density operators with restricted support: outcome is an eigenvalue of non-zero Born probability, post state == P p / norm; nt: some outcome has probability 0 or degenerate"),
+    SubCheck("simulate_counts", run_counts, s_counts, examples=(150, 3000), shards=(1, 4),
+             rule="simulate_counts with explicit seed on states with restricted support, phys_dim 2/3: totals, key format, outcomes inside the Born support, seed determinism; nt: restricted support and n>=2"),
+    SubCheck("dephase", run_dephase, s_dephase, examples=(150, 3000), shards=(1, 4),
+             rule="dephase vs (1-p) rho + p 1/d; rand_rank int/float: diagonal dephaser with the stated number of equal entries; trace 1; nt: p>0"),
+    SubCheck("pauli_decomp", run_pauli_decomp, s_pauli_decomp, examples=(60, 1200), shards=(1, 4),
+             rule="pauli_decomp(mode='c') of kets, density operators, hermitian operators on 1-4 qubits: names, coefficients tr(rho P)/2^n, reconstruction, ordering, ket==projector; nt: n>=2"),
+    SubCheck("correlation", run_correlation, s_correlation, examples=(200, 4000), shards=(1, 4),
+             rule="correlation(A,B,sysa,sysb) on qubit and qudit registers, any order of sites, sparse flag / sparse operators / precomp vs <AB>-<A><B> with embed; ket==projector; symmetry; product -> 0; nt: non-product n>=3"),
+    SubCheck("pauli_correlations", run_pauli_corr, s_pauli_corr, examples=(100, 2000), shards=(1, 4),
+             rule="pauli_correlations over drawn operator pairs, sum_abs, precomp vs textbook; nt: non-product n>=3"),
+    SubCheck("ent_cross_matrix", run_ecm, s_ecm, examples=(100, 2000), shards=(1, 4),
+             rule="ent_cross_matrix on 2-5 qubits, block sizes 1-2, logneg/negativity/mutinf, self entanglement via own purification, upscale layout, nan pattern, symmetry; values asserted for blc=1, up to one common factor in {1,1/blc} for blc=2; nt: non-product and >=2 blocks"),
+    SubCheck("qid", run_qid, s_qid, examples=(100, 2000), shards=(1, 4),
+             rule="qid vs sum_s coeff*||[rho, s_i]||_2^power (quimb.norm's documented default), sparse_comp on/off, precomp, ket==projector; nt: n>=2"),
+    SubCheck("approx", run_approx, s_approx, examples=(6, 60), shards=(3, 6), soft_budget=(70.0, 900.0), hard_timeout=(600.0, 2400.0),
+             rule="entropy/tr_sqrt/logneg/negativity _subsys_approx and the approx_thresh routes of entropy_subsys, tr_sqrt_subsys, logneg_subsys, mutinf_subsys vs exact within 0.15-0.3*(|exact|+1), subsystem dim>=8 (>=4 for two-subsystem routes), seeded; all nt"),
+    SubCheck("lazy_linop", run_lazy, s_lazy, examples=(150, 3000), shards=(1, 4),
+             rule="lazy_ptr_linop / lazy_ptr_ppt_linop (to_dense, matvec, matmat) vs reduced state / its partial transpose, spectrum and entries; nt: entangled n>=3"),
+    SubCheck("sparse", run_sparse, s_sparse, examples=(250, 4000), shards=(1, 4),
+             rule="14 entry points evaluated on sparse kets / operators vs the same call on the dense object and vs the oracle; nt: non-product n>=3"),
+]
